@@ -6,6 +6,20 @@ import os
 VERIF = os.path.dirname(os.path.dirname(os.path.abspath(__file__)))
 
 CHECKS = {
+    "C01": dict(
+        category="model_checking",
+        technique="stateless DFS over all resolutions of the generator's random decisions (random seam), explicit-state reachability over trees under the search operators, deviation-bounded exploration of the real fuzz loop",
+        text="(A) for every grammar of the family and node budgets 0/3/10 (thorough 0/1/3/6/10) all resolutions of Grammar.fuzz's random decisions are executed (production budgets 50/200 deviation-bounded); (B) from all small generated trees of seven collision specs, mutate / crossover / repair are applied under every resolution of their random decisions and new trees are expanded further; (C) Fandango.fuzz(population 3, 2 generations) is executed for every resolution within deviation bound 1 (thorough 2) of two base executions. Every tree produced anywhere is checked by the RefGrammar derivation checker and its serialisation must be a word of the language.",
+        note="Not exhaustive: decision trees are capped (caps reported in evidence), the loop is explored to a deviation bound. MAX_REPETITIONS is lowered to 2-3 to bound randint fan-out.",
+        design="4 C01",
+    ),
+    "C02": dict(
+        category="model_checking",
+        technique="deviation-bounded exploration of the real fuzz loop plus bounded-exhaustive (tree, constraint) enumeration through the evaluator's acceptance gate, emissions re-judged by a reference evaluator on rebuilt trees",
+        text="Every tree handed to solution_callback in every loop execution within the deviation bound (seven collision specs: computed repetitions, equality repair, nested repetitions, recursion with raising operands, bits/bytes, regex/optional, generators) is rebuilt from a plain snapshot and judged by RefConstraint plus a recount of computed repetitions; additionally every enumerated tree x constraint program of the C07 family goes through Evaluator.evaluate_individual and whatever it yields must satisfy the reference.",
+        note="FANDANGO_RAISE_ALL_EXCEPTIONS is unset (production path). The raising-operand defect was repaired; the descendant-selector deviation is a recorded known finding.",
+        design="4 C02",
+    ),
     "C03": dict(
         category="model_checking",
         technique="exhaustive walk of a finite configuration lattice (h, r, declaration order) on the real evaluator and the public fuzz API",
@@ -75,6 +89,13 @@ CHECKS = {
         text="Every (grammar, word) of the family is parsed as whole forest and in prefix mode under a Column.add admission budget of 30 000 (terminating requests of these sizes need < 5 000; the measured maximum is in the evidence). A request exceeding the budget is reported as non-terminating.",
         note="Bounded liveness: a budget overrun is taken as divergence (margin reported). The nullable-body-under-*/+ divergence is a recorded known finding.",
         design="4 C06",
+    ),
+    "C16": dict(
+        category="model_checking",
+        technique="explicit-state reachability over trees under the search operators (all random resolutions) and deviation-bounded loop exploration on specs whose generator functions log every call",
+        text="On a spec with a constant, a random (through the random seam) and an argument-dependent generator whose functions log (name, arguments, value): every tree reachable through mutate/crossover/repair to depth 2 (thorough 3) and every tree in every loop execution within the deviation bound must carry, in each generator-owned node, a logged return value that equals the function of the argument values recorded in .sources; a generator whose value does not fit its rule must raise under every resolution.",
+        note="The read-only marking itself is not judged (mechanism, not property).",
+        design="4 C16",
     ),
 }
 
